@@ -166,7 +166,28 @@ def c17(run):
                         "contexts are pooled (suggestions on need the dictionary); a mismatch is confirmed on brand-new contexts before it is reported"]
 
 
-PROPS = {"C01": c01, "C03": c03, "C17": c17, "C02": c02, "C06": c06, "C04": c04, "C12": c12, "C13": c13, "C14": c14}
+def c05(run):
+    run.sites = {"pure", "panic"}
+    if run.quick():
+        consts = {"MaxEdits": 3, "MaxPrior": 1, "Cfgs": '"quick"'}
+    else:
+        consts = {"MaxEdits": 4, "MaxPrior": 2, "Cfgs": '"all"'}
+    tlc, s = run_tlc_replay(run, "MC_Memo", "MC_Memo.tla",
+                            dict(spec="Spec", constants=consts, invariants=["MemoTransparent", "Emit", "EmitBs"]),
+                            "C05", workers=4, threads=8, timeout=7000)
+    run.add(tlc, s)
+    run.rule = ("TLC enumerates targets P.base.suffix.Q (300 texts from real bases/suffix keys/punctuation incl. colon, back-tick, quotes) x up to %d earlier words "
+                "in the same context x a plainly typed prefix x every edit path of up to %d steps (next character / wrong character / backspace), checks "
+                "MemoTransparent on the memo model, and emits each history whose surviving text is a non-empty prefix of the target as a pair: (long-lived warm "
+                "context that has composed all earlier scenarios, with a second context of the same process used between the steps) vs (brand-new context typing "
+                "the surviving text); the full renderings must be equal.  Non-trivial = every compared pair."
+                % (consts["MaxPrior"], consts["MaxEdits"]))
+    run.assumptions += ["the brand-new-context rendering of a text is computed once per (configuration, text) and cached (it is deterministic)",
+                        "learned-selection store empty and selection byte 0 throughout (held fixed, as the quantifier says)",
+                        "warm contexts are rotated after 4000 steps; the replay file of a violation carries the whole history of the warm context"]
+
+
+PROPS = {"C01": c01, "C03": c03, "C05": c05, "C17": c17, "C02": c02, "C06": c06, "C04": c04, "C12": c12, "C13": c13, "C14": c14}
 
 
 def replay_file(run, path):
